@@ -8,7 +8,9 @@ def run(tier, seed, limit=0):
     chk = engine.Check("C16", tier, seed)
     scs = (fam_tree.family_T(tier, seed, faults=True, probes=True, tag="T16") + fam_tree.family_ctor_fault(tier, seed)
            + fam_fault.family_F(tier, seed) + fam_fault.family_softlist(tier, seed) + fam_fault.family_nested_fault(tier, seed)
-           + fam_fault.family_softprio_after_fail(tier, seed) + fam_fault.family_randsz_after_fail(tier, seed) + fam_fault.family_bigcore(tier, seed))
+           + fam_fault.family_softprio_after_fail(tier, seed) + fam_fault.family_randsz_after_fail(tier, seed) + fam_fault.family_bigcore(tier, seed)
+           # scenarios of the other properties' families with an unsatisfiable call inserted before every call
+           + fam_fault.family_after_failure(tier, seed))
     if limit:
         scs = scs[:limit]
     chk.run_scenarios(scs, "Trace_VscRand",
